@@ -287,7 +287,11 @@ def savi_sweeps(job):
            "n_batches": int(solver.batch_processor.n_batches), "n_pad": int(solver.n_pad)}
     key = jax.random.PRNGKey(int(cfg.get("random_seed", 42)))
     documented = []
-    for _ in range(job["sweeps"]):
+    for k_ in range(job["sweeps"]):
+        if job.get("schedule"):
+            # the public configuration flag is switched on a LIVE solver between sweeps (it is read afresh for every sweep)
+            solver.config.shuffle_states = bool(job["schedule"][k_])
+            cfg["shuffle_states"] = bool(job["schedule"][k_])
         solver.solve(max_iterations=1)
         out["values"].append(_fx(solver.values))
         out["iteration"].append(int(solver.iteration))
